@@ -208,7 +208,8 @@ def render_lproject(proj, root, modpath, cfgname="gleece.json"):
         for ln in c.get("lead", []):
             k = emit(fi, ind + "// " + ln)
             l0 = k if l0 is None else l0
-        cattrs = list(c.get("attrs") or ([{"k": "Tag", "v": c.get("tag", "T")}] if c.get("tag", "T") is not None else []) +
+        cattrs = list(c["attrs"] if c.get("attrs") is not None else
+                      ([{"k": "Tag", "v": c.get("tag", "T")}] if c.get("tag", "T") is not None else []) +
                       ([{"k": "Route", "v": c["prefix"]}] if c["prefix"] else []))
         for a in cattrs:
             txt = attr_text(a)
@@ -752,6 +753,12 @@ def single_perturbations(r, ext=False, twin_every=1):
                 mk("url-dup-param", lambda x, i=i: x["attrs"][i].update(v=x["attrs"][i]["v"] + "/{%s}" % u), at=i)
                 mk("url-rename-param", lambda x, i=i: x["attrs"][i].update(v=x["attrs"][i]["v"].replace("{%s}" % u, "{%s_x}" % u, 1)), at=i)
                 mk("url-unclosed", lambda x, i=i: x["attrs"][i].update(v=x["attrs"][i]["v"].replace("{%s}" % u, "{%s" % u, 1)), at=i)
+                if ext:
+                    # the same URL parameter under a name with a dash: re-bound through the alias (as well linked as
+                    # before) / not re-bound
+                    for u2 in urlnames[:2]:
+                        mk("url-dash-param", lambda x, u2=u2: dashify(x, u2, u2.replace("_", "-") + "-d"), at=i)
+                        mk("url-dash-only", lambda x, u2=u2: dashify(x, u2, u2.replace("_", "-") + "-d", rebind=False), at=i)
     mk("prefix-param", lambda x: x.update(prefix="/t/{tenant}"))
     mk("add-annotation:Security", lambda x: x["attrs"].append({"k": "Security", "v": "sec2"}))
     mk("add-annotation:Unknown", lambda x: x["attrs"].append({"k": "Unknown", "v": "whatever"}))
@@ -825,10 +832,39 @@ def paired_perturbations(singles, rng, share):
     return out
 
 
+DASHED = ["item-id", "user-id", "x-key", "sub-1"]
+
+
+def url_names(r):
+    return [n for a in r["attrs"] if a["k"] == "Route" for n in re.findall(r"\{([^{}]*)\}", a["v"])]
+
+
+def path_binding(a):
+    """The URL name a @Path binds (Linker.binding): its alias when it has a non-empty one, else its value."""
+    return (a.get("alias") or {}).get("s") or a["v"]
+
+
+def dashify(r, u, new, rebind=True):
+    """In place: the URL parameter {u} is spelt {new} - a name with a dash, which no Go identifier can have, so that
+    it can only be bound through the `name` alias: the @Path that binds u gets `new` as its alias (rebind)."""
+    if new in url_names(r) or u not in url_names(r):
+        return False
+    for a in r["attrs"]:
+        if a["k"] == "Route":
+            a["v"] = a["v"].replace("{%s}" % u, "{%s}" % new, 1)
+        elif rebind and a["k"] == "Path" and path_binding(a) == u and (a.get("alias") or {}).get("n") is None:
+            a["alias"] = {"s": new}
+    return True
+
+
 def decorate_bases(base, rng):
     """Well-formed variants the property quantifies over as well: the route is hidden from the OpenAPI document
-    (@Hidden at any place of the comment); a struct parameter is of a type that is only CALLED Context."""
+    (@Hidden at any place of the comment); a struct parameter is of a type that is only CALLED Context; a URL
+    parameter has a name with a dash (`/items/{item-id}`, bound by `@Path(id, {name: "item-id"})`)."""
     for b in base:
+        for u in url_names(b):
+            if rng.random() < 0.5:
+                dashify(b, u, rng.choice(DASHED + [u + "-x", "x-" + u]))
         if rng.random() < 0.4:
             b["attrs"].insert(rng.randrange(len(b["attrs"]) + 1), {"k": "Hidden", "v": "", "alias": None})
         for p in b["params"]:
@@ -1079,6 +1115,11 @@ def cli_half(rng, base_routes, bad_routes, res, tier):
     for k in range(2 * n):
         bad = k % 2 == 0
         rs = [gen_base_route(rng, 9000 + 10 * k + q, simple=True) for q in range(3)]
+        rngd = random.Random(7919 * k + 13)           # URL parameters with a dash go through the generators as well
+        for r in rs:
+            for u in url_names(r):
+                if rngd.random() < 0.5:
+                    dashify(r, u, rngd.choice(DASHED + [u + "-x"]))
         if bad:
             rs.insert(rng.randrange(len(rs) + 1), copy.deepcopy(bad_routes[(k // 2) % len(bad_routes)]))
         for r in rs:
@@ -1130,6 +1171,246 @@ def cli_half(rng, base_routes, bad_routes, res, tier):
     return cases, fails
 
 
+# ------------------------------------------------------------------ the controller's own annotations (Model/CtlSelf.v)
+
+CKIND_COQ = {"Tag": "CKTag", "Route": "CKRoute", "Security": "CKSecurity", "Description": "CKDescription",
+             "Deprecated": "CKDeprecated", "Method": "CKRouteOnly"}       # any other name: CKUnknown
+CTL_SHAPES = ["endpoint", "no-methods", "lost-method", "lost-route", "bare-method"]
+
+
+def coq_cattrs(attrs):
+    return coq_list(["(mkCa %s %s %s)" % (CKIND_COQ.get(a["k"], "CKUnknown"), coq_bytes(a["v"]),
+                                         coq_bool(a.get("xprop") and a["v"] != "")) for a in attrs])
+
+
+CTL_HEADER = COQ_HEADER.replace("Model.Linker.", "Model.Linker Model.CtlSelf.") + \
+    "Definition mkCa k v x := {| ca_kind := k; ca_value := v; ca_props := x |}.\n"
+
+
+def gen_ctl_base(rng, k):
+    """A well-formed controller comment: @Tag and @Route, perhaps @Description, @Security, @Deprecated, any order."""
+    attrs = [{"k": "Tag", "v": rng.choice(["Reports", "T%d" % k])}, {"k": "Route", "v": "/x%d" % k}]
+    if rng.random() < 0.5:
+        attrs.append({"k": "Description", "v": "Reports"})
+    if rng.random() < 0.4:
+        attrs.append({"k": "Security", "v": rng.choice(["sec1", "sec2"])})
+    if rng.random() < 0.3:
+        attrs.append({"k": "Deprecated", "v": ""})
+    rng.shuffle(attrs)
+    return attrs
+
+
+def ctl_perturbations(attrs):
+    """All single perturbations of a controller comment: (label, attrs)."""
+    out = []
+
+    def mk(label, f):
+        x = copy.deepcopy(attrs)
+        if f(x) is False:
+            return
+        for a in x:
+            if a["v"] == "":
+                a.pop("xprop", None)
+        out.append((label, x))
+
+    def xprop(x, i):
+        if x[i]["v"] == "" or x[i].get("xprop") or x[i]["k"] not in CKIND_COQ:
+            return False
+        x[i]["xprop"] = True
+
+    for i, a in enumerate(attrs):
+        mk("ctl-drop:%s" % a["k"], lambda x, i=i: x.pop(i))
+        mk("ctl-drop-value:%s" % a["k"], lambda x, i=i: False if x[i]["v"] == "" else x[i].update(v=""))
+        mk("ctl-duplicate:%s" % a["k"], lambda x, i=i: x.insert(i + 1, copy.deepcopy(x[i])))
+        mk("ctl-misspell:%s" % a["k"], lambda x, i=i: False if x[i]["k"] not in CKIND_COQ else x[i].update(k=x[i]["k"] + x[i]["k"][-1]))
+        mk("ctl-add-unknown-property:%s" % a["k"], lambda x, i=i: xprop(x, i))
+    mk("ctl-add:Method", lambda x: x.append({"k": "Method", "v": "GET"}))
+    mk("ctl-add:Method-first", lambda x: x.insert(0, {"k": "Method", "v": "GET"}))
+    mk("ctl-add:unknown", lambda x: x.append({"k": "Controller", "v": "main"}))
+    mk("ctl-add:unknown-valueless", lambda x: x.insert(0, {"k": "Tagg", "v": ""}))
+    mk("ctl-add:Tag-valueless", lambda x: x.append({"k": "Tag", "v": ""}))
+    return out
+
+
+def ctl_methods(shape, ctl, k):
+    """The methods of controller number k, by shape: only "endpoint" exposes one."""
+    m = {"name": "M%d" % k, "ctl": ctl, "params": [], "rets": ["RPlain", "RError"], "pert": [],
+         "attrs": [{"k": "Method", "v": "GET"}, {"k": "Route", "v": "/daily%d" % k}]}
+    if shape == "no-methods":
+        return []
+    if shape == "lost-method":
+        m["attrs"] = m["attrs"][1:]
+    elif shape == "lost-route":
+        m["attrs"] = m["attrs"][:1]
+    elif shape == "bare-method":
+        m["attrs"] = []
+    return [m]
+
+
+def ctl_project(cases):
+    """A well-formed controller with two endpoints, and the controllers of the given cases next to it."""
+    ctls = [{"name": "Items", "prefix": "/items"}]
+    rs = [{"name": "ItemsGet", "ctl": "Items", "pert": [], "rets": ["RPlain", "RError"],
+           "attrs": [{"k": "Method", "v": "GET"}, {"k": "Route", "v": "/{id}"}, {"k": "Path", "v": "id"}],
+           "params": [{"name": "id", "base": "TPrim", "shape": "SPlain"}]},
+          {"name": "ItemsAll", "ctl": "Items", "pert": [], "rets": ["RPlain", "RError"],
+           "attrs": [{"k": "Method", "v": "GET"}, {"k": "Route", "v": "/all"}], "params": []}]
+    for c in cases:
+        ctls.append({"name": c["ctl"], "prefix": "", "attrs": c["attrs"]})
+        rs += ctl_methods(c["shape"], c["ctl"], c["k"])
+    return {"controllers": ctls, "routes": rs}
+
+
+def ctl_observe(cases, workdir, batch=8):
+    """pipeline.Validate() on projects of `batch` controllers each: per case the (code, severity) multiset on the
+    controller entity.  A project that cannot be analysed is re-run one controller at a time."""
+    def run(groups, tag):
+        outs, _ = observe_projects([ctl_project(g) for g in groups], os.path.join(workdir, tag), full=False)
+        redo = []
+        for g, out in zip(groups, outs):
+            bad = None
+            if "crash" in out or "rounds" not in out:
+                bad = "crash: " + str(out)[:300]
+            else:
+                r = out["rounds"][0]
+                bad = ("panic: " + r["panic"]) if r["panic"] else ("graph: " + r["graph_err"]) if r["graph_err"] else \
+                    ("validate: " + r["validate_err"]) if r["validate_err"] else None
+            if bad is not None:
+                if len(g) > 1:
+                    redo += [[c] for c in g]
+                else:
+                    g[0]["obs"], g[0]["note"] = [(98, 1)], bad[-300:]
+                continue
+            for c in g:
+                c["obs"] = sorted((CODE_N.get(d["code"], 99), d["severity"]) for d in r["diags"]
+                                  if d["kind"] == "Controller" and d["entity"] == c["ctl"])
+                c["method_diags"] = [d["code"] for d in r["diags"] if d["kind"] == "Receiver" and d["entity"] == "M%d" % c["k"]]
+        return redo
+    redo = run([cases[lo:lo + batch] for lo in range(0, len(cases), batch)], "cb")
+    if redo:
+        run(redo, "cs")
+
+
+def ctl_leg(rng, tier, replay_cases=None):
+    """Controllers whose OWN comment is perturbed, over every shape of what the controller exposes (an endpoint; no
+    method; a method that lost @Method / @Route / its whole comment).  Correspondence: the diagnostics on the
+    controller entity = CtlSelf.ctl_self_diags, in every shape.  Oracle prop_C10_ctl on the real command for a sample.
+    Returns (cases, cli cases, failures of the oracle, disagreements, table obligation)."""
+    workdir = os.path.join(WORK, PROP, "ctl")
+    if replay_cases is not None:
+        cases = copy.deepcopy(replay_cases)
+    else:
+        cases = []
+        nb = 2 if tier == "quick" else 8
+        for b in range(nb):
+            base = gen_ctl_base(rng, b)
+            variants = [("ctl-well-formed", base)] + ctl_perturbations(base)
+            singles = [v for (_, v) in variants[1:]]
+            for _ in range(4 if tier == "quick" else 40):            # double perturbations
+                lab1, v1 = rng.choice(variants[1:])
+                opts = ctl_perturbations(v1)
+                if opts:
+                    lab2, v2 = rng.choice(opts)
+                    variants.append((lab1 + "+" + lab2, v2))
+            for (lab, v) in variants:
+                shapes = ["endpoint"] + (rng.sample(CTL_SHAPES[1:], 2) if tier == "quick" else CTL_SHAPES[1:])
+                for sh in shapes:
+                    cases.append({"attrs": v, "shape": sh, "pert": lab})
+    for k, c in enumerate(cases):
+        c["k"], c["ctl"] = k, "X%dCtl" % k
+    ctl_observe(cases, workdir)
+    # the rows of ValidatorConfigMap the model uses
+    dump = implrun("rules", {})
+    byname = {r["name"]: r for r in dump["rules"]}
+    trows = []
+    for n_, name in enumerate(["Tag", "Route", "Security", "Description", "Deprecated", "Method"]):
+        r = byname.get(name)
+        if r is None:
+            trows.append([n_, 9])
+            continue
+        pol = 3 if r["any_property"] else 0 if not r["properties"] else 1
+        xkey = XPROP_TEXT.split(":")[0]
+        if xkey in r["properties"] or r["mutex"] or (r["unique"] and name != "Method"):
+            pol = 9
+        trows.append([n_, int("controller" in r["contexts"]), int(r["requires_value"]), int(r["allows_multiple"]), pol])
+    body = CTL_HEADER + "Definition impl_rows : list (list nat) := %s.\n" % coq_list(
+        [coq_list([str(x) for x in row]) for row in trows]) + \
+        "Definition ctable_ok := Eval vm_compute in [bool_n (list_eqb (list_eqb Nat.eqb) crule_table impl_rows)].\n" \
+        "Print ctable_ok.\n" + \
+        "Definition ccases : list (list cattr * list (nat * nat)) := [\n" + ";\n".join(
+            "(%s, %s)" % (coq_cattrs(c["attrs"]), coq_list(["(%d, %d)" % d for d in c["obs"]])) for c in cases) + "].\n" \
+        "Definition cagree := Eval vm_compute in map (fun c => bool_n (mset_eqb pair_eqb (ctl_obs (fst c)) (snd c))) ccases.\n" \
+        "Definition cerr := Eval vm_compute in map (fun c => bool_n (ctl_comment_in_error (fst c))) ccases.\n" \
+        "Print cagree.\nPrint cerr.\n"
+    o = run_coq_file(PROP, "ctl_cases", body)
+    table_ok = parse_nat_list(o, "ctable_ok") == [1]
+    ag, ce = parse_nat_list(o, "cagree"), parse_nat_list(o, "cerr")
+    for c, a_, e_ in zip(cases, ag, ce):
+        c["agrees"], c["in_error"] = bool(a_), bool(e_)
+    disagree = sorted([c for c in cases if not c["agrees"]], key=lambda c: not c["in_error"])
+    # ---- the real command, on a sample: every disagreeing case first, then erroneous comments on controllers that
+    # expose nothing, then comments without error (which must go through)
+    build_cli()
+    moddir = os.path.join(WORK, PROP, "ctlcli")
+    shutil.rmtree(moddir, ignore_errors=True)
+    P.make_module(moddir)
+    n = 6 if tier == "quick" else 24
+    stubs_err = [c for c in cases if c["in_error"] and c["shape"] != "endpoint" and c not in disagree]
+    passing = [c for c in cases if not c["in_error"] and c["shape"] != "endpoint" and c not in disagree]
+    with_ep = [c for c in cases if c["in_error"] and c["shape"] == "endpoint" and c not in disagree]
+    rng.shuffle(stubs_err), rng.shuffle(passing), rng.shuffle(with_ep)
+    sample = (disagree[:n] + stubs_err[:n] + with_ep[:max(1, n // 3)] + passing[:max(2, n // 3)]) if replay_cases is None else cases
+    SENT_R, SENT_S = "// sentinel routes\n", '{"sentinel": true}\n'
+    CMDS = [["generate", "spec-and-routes"], ["generate", "routes"], ["generate", "spec"]]
+    jobs = []
+    for q, c in enumerate(sample):
+        root = os.path.join(moddir, "p%d" % q)
+        render_lproject(ctl_project([c]), root, "verifproj/p%d" % q)
+        os.makedirs(os.path.join(root, "dist"), exist_ok=True)
+        c = sample[q] = dict(c, pre=c.get("pre", q % 2 == 0), cmd=c.get("cmd", CMDS[q % 3]), root=root)
+        if c["pre"]:
+            for fn, txt in (("routes.go", SENT_R), ("spec.json", SENT_S)):
+                with open(os.path.join(root, "dist", fn), "w") as f:
+                    f.write(txt)
+                os.utime(os.path.join(root, "dist", fn), (1_600_000_000, 1_600_000_000))
+        jobs.append({"dir": root, "args": c["cmd"] + ["-c", "gleece.json"]})
+    results = P.run_cli_many(jobs)
+    rows = []
+    for c, rr in zip(sample, results):
+        def state(fn, sentinel):
+            pth = os.path.join(c["root"], "dist", fn)
+            if not os.path.exists(pth):
+                return "absent"
+            same = open(pth).read() == sentinel and int(os.stat(pth).st_mtime) == 1_600_000_000
+            return "unchanged" if (c["pre"] and same) else "written"
+        c["exit"], c["out"] = rr["exit"], rr["out"][-500:]
+        c["routes_state"], c["spec_state"] = state("routes.go", SENT_R), state("spec.json", SENT_S)
+        untouched = lambda st: st == ("unchanged" if c["pre"] else "absent")
+        rows.append("(%s, %s, (%s, %s, %s))" % (coq_cattrs(c["attrs"]), coq_list(["(%d, %d)" % tuple(d) for d in c["obs"]]),
+                                               coq_bool(rr["exit"] != 0), coq_bool(untouched(c["routes_state"])),
+                                               coq_bool(untouched(c["spec_state"]))))
+    ok = []
+    if rows:
+        body = CTL_HEADER + "Definition ccmds : list (list cattr * list (nat * nat) * (bool * bool * bool)) := [\n" + \
+            ";\n".join(rows) + "].\n" \
+            "Definition ccmdok := Eval vm_compute in map (fun c => let '(a, d, (f, ru, su)) := c in " \
+            "bool_n (prop_C10_ctl a d f ru su)) ccmds.\nPrint ccmdok.\n"
+        ok = parse_nat_list(run_coq_file(PROP, "ctl_cmds", body), "ccmdok")
+    fails = [c for c, o_ in zip(sample, ok) if not o_]
+    # non-vacuity: comments without an error must make it through the command
+    for c in sample:
+        if not c["in_error"] and c["agrees"] and c["exit"] != 0 and c not in fails:
+            c["note"] = "a controller comment without an error, yet the command fails"
+            fails.append(c)
+    for c in sample:
+        c.pop("root", None)
+    return cases, sample, fails, disagree, (table_ok, trows)
+
+
+def strip_ctl(c):
+    return {k: c[k] for k in ("attrs", "shape", "pert", "pre", "cmd") if k in c}
+
+
 # ------------------------------------------------------------------ main
 
 def known_index():
@@ -1161,7 +1442,7 @@ def main():
 
     if a.replay:
         rp = json.load(open(a.replay))
-        if rp["input"].get("namesake"):
+        if rp["input"].get("namesake") or rp["input"].get("controller"):
             routes = []
         else:
             routes = list(rp["input"]["routes"]) if "routes" in rp["input"] else [rp["input"]]
@@ -1197,7 +1478,7 @@ def main():
 
     pred, obs, rs, notes = evaluate(routes, "main", workdir)
     ns_roots = []
-    if not a.replay or not routes:
+    if not a.replay or (not routes and rp["input"].get("namesake")):
         nroutes, nobs, ns_roots = namesake_cases(os.path.join(WORK, PROP, "namesake"))
         nrs = coq_eval_cases(nroutes, [r["prefix"] for r in nroutes], nobs, "namesake")
         routes += nroutes
@@ -1308,6 +1589,35 @@ def main():
                                "claim": c.get("note", "an error-severity diagnostic exists: the command must fail and leave "
                                                        "routes file and spec untouched")})
 
+    # ---- the controllers' own comments, over what the controller exposes
+    ctl_cases, ctl_cli, ctl_fails, ctl_dis, ctl_table = [], [], [], [], (True, [])
+    if not a.replay or rp["input"].get("controller"):
+        rng4 = random.Random(seed * 7919 + 12)
+        ctl_cases, ctl_cli, ctl_fails, ctl_dis, ctl_table = ctl_leg(
+            rng4, a.tier, [rp["input"]["controller"]] if a.replay else None)
+        for c in ctl_fails[:2]:
+            res.violation({"kind": "property-fails-on-implementation", "input": {"controller": strip_ctl(c)},
+                           "project": "a well-formed controller Items (GET /items/{id}, GET /items/all) and a controller whose "
+                                      "doc comment has the annotations `attrs`; shape = what that controller exposes: an "
+                                      "endpoint / no method / one method that lost @Method, @Route or its whole comment "
+                                      "(pygen/c10.py ctl_project)",
+                           "implementation_output": {k: c.get(k) for k in ("obs", "exit", "routes_state", "spec_state", "out", "note")},
+                           "model_diagnostics_agree": c["agrees"], "comment_in_error": c["in_error"],
+                           "claim": c.get("note", "prop_C10_ctl: an unknown annotation or an annotation without its required value "
+                                                  "on a controller comment is an error-severity diagnostic, the command fails and "
+                                                  "leaves routes file and spec untouched - whatever the controller exposes")})
+        if not ctl_fails and (ctl_dis or not ctl_table[0]):
+            if ctl_dis:
+                c = ctl_dis[0]
+                res.violation({"kind": "correspondence", "obligation": "corr:CtlSelf.ctl_self_diags",
+                               "input": {"controller": strip_ctl(c)}, "implementation_output": c.get("obs"),
+                               "note": "model and implementation disagree on the diagnostics of %d of %d controllers; the "
+                                       "oracle found no failing command among them" % (len(ctl_dis), len(ctl_cases))},
+                              no_input=True)
+            else:
+                res.violation({"kind": "reflection-obligation", "obligation": "Gen_rules.crule_table_ok", "detail": ctl_table[1]},
+                              no_input=True)
+
     # ---- evidence
     pk, codes, predc, oracles = {}, {}, {}, {}
     for r in routes:
@@ -1325,7 +1635,9 @@ def main():
     distinct = set(json.dumps([strip_route(r)["attrs"], strip_route(r)["params"], r["rets"], r["prefix"]], sort_keys=True)
                    for r, o in zip(routes, obs) if o["diags"] or o["kind"] != 2)
     res.coverage.update({
-        "evaluations": len(routes) + len(cli_cases), "distinct_nontrivial": len(distinct),
+        "evaluations": len(routes) + len(cli_cases) + len(ctl_cases) + len(ctl_cli),
+        "distinct_nontrivial": len(distinct) + len(set(json.dumps([c["attrs"], c["shape"]], sort_keys=True)
+                                                       for c in ctl_cases if c.get("obs"))),
         "rule": "seeded well-formed routes (verb, template with 0-2 parameters, @Path by name or alias, query/header/"
                 "form/body parameters over primitive/enum/alias/struct types, context parameter, @Security, 6 return "
                 "shapes), ALL their single perturbations (drop/duplicate/rename/retarget/re-kind an annotation, aliases "
@@ -1339,6 +1651,12 @@ def main():
                 "perturbation of it plus a warning-level problem in its properties object) and one deliberate instance "
                 "of every recorded class; well-formed routes carry @Hidden (p=0.4) and use the namesake structs at random; "
                 "any route with consecutive parameters of one Go type is written with shared declarations at p=0.5; "
+                "URL parameters whose name has a dash (bound through the `name` alias) in well-formed routes (p=0.5 per "
+                "parameter) and as perturbation (re-bound / not re-bound); controllers whose OWN comment (@Tag, @Route, "
+                "perhaps @Description/@Security/@Deprecated) is perturbed (drop, drop value, duplicate, misspell, unknown "
+                "property, route-only / unknown / valueless annotation added; doubles) over what the controller exposes "
+                "(an endpoint, no method, one method that lost @Method / @Route / its comment), validated through "
+                "pipeline.Validate() and, for a sample, the real generate spec-and-routes / routes / spec; "
                 "non-trivial = rejected, warned or ignored by the implementation, distinct by annotations+signature",
         "samples": [{"route": strip_route(routes[i]), "implementation": obs[i], "oracle": rs[i]}
                     for i in (0, len(routes) // 3, len(routes) // 2)] if routes else [],
@@ -1352,6 +1670,15 @@ def main():
                                "cli_cases": [{"bad": c["bad"], "pre_existing": c["pre"], "exit": c["exit"],
                                               "routes": c["routes_state"], "spec": c["spec_state"]} for c in cli_cases]},
         "unanalysable_projects": notes[:5], "route_conflict_context": dict(STATS),
+        "controller_comments": {
+            "cases": len(ctl_cases), "disagreements": len(ctl_dis), "rule_rows": ctl_table[1],
+            "by_shape": {sh: sum(1 for c in ctl_cases if c["shape"] == sh) for sh in CTL_SHAPES},
+            "in_error": sum(1 for c in ctl_cases if c.get("in_error")),
+            "in_error_exposing_nothing": sum(1 for c in ctl_cases if c.get("in_error") and c["shape"] != "endpoint"),
+            "dashed_url_parameter_routes": sum(1 for r in routes if any("-" in n_ for n_ in url_names(r))),
+            "commands": [{"pert": c["pert"], "shape": c["shape"], "cmd": " ".join(c["cmd"]), "in_error": c["in_error"],
+                          "pre_existing": c["pre"], "exit": c["exit"], "routes": c["routes_state"], "spec": c["spec_state"]}
+                         for c in ctl_cli]},
     })
     res.assumptions += [
         "enforceSecurityOnAllRoutes is off (validateSecurity is not part of the property)",
